@@ -126,6 +126,18 @@ theorem zk_reader_forwards_accepted_commits (s : ZkReader.St) (e : Entry) (v : I
       [.offset e.group e.topic e.partition v e.zxid (e.zxid * 1000), .owner e.group e.topic e.partition e.owner] := by
   simp [ZkReader.step, hst, forwardOne, hacc, hp]
 
+/-- … and when every watch is re-made (Start, and again after a session expiry) every commit of an
+    accepted group that the tree holds is forwarded again, none is skipped -/
+theorem zk_reader_rewalk_is_complete (s : ZkReader.St) (e : Entry) (v : Int) (hst : s.started = true) (he : e ∈ s.tree)
+    (hacc : e.acc = true) (hp : e.parsed = some v) :
+    Fw.offset e.group e.topic e.partition v e.zxid (e.zxid * 1000) ∈ (ZkReader.step s .expire).2 ∧
+    Fw.owner e.group e.topic e.partition e.owner ∈ (ZkReader.step s .expire).2 := by
+  have hmem : ∀ fw ∈ forwardOne e, fw ∈ (ZkReader.step s .expire).2 := by
+    intro fw hfw
+    simp only [ZkReader.step, hst, if_true, walk, List.mem_flatMap]
+    exact ⟨e, he, hfw⟩
+  constructor <;> apply hmem <;> simp [forwardOne, hacc, hp]
+
 end ZkReader
 
 end Burrow.Props.C10
